@@ -34,8 +34,8 @@ checks = {
    design="DESIGN.md 4/C10"),
  "C17": dict(
    text="REDUCED CLAIM: the front end is regenerated from peg.peg under the four -inline/-switch option sets with the peg built from the working tree (must succeed under -strict); the four regenerated front ends and the checked-in peg.peg.go are executed symbolically on the same grammar text with K symbolic characters: "
-        "same verdict, same token list and same resulting tree. Byte-for-byte reproduction of peg.peg.go by the bootstrap chain is NOT covered (closed concrete computation; see DESIGN.md 5).",
-   note=NOTE_COMMON + "K <= 2 (quick) / 3 (thorough) symbolic characters in two text shapes; shipped example grammars are not part of this check.",
+        "same verdict, same token list and same resulting tree. The shipped example grammars are generated under -strict with the four option sets, whose parsers must agree (verdict, tokens) on every input of <= N runes and on their sample inputs with two positions replaced by arbitrary runes. Byte-for-byte reproduction of peg.peg.go by the bootstrap chain is NOT covered (closed concrete computation; see DESIGN.md 5).",
+   note=NOTE_COMMON + "K <= 2 (quick) / 3 (thorough) symbolic characters in two text shapes; shipped grammars: calculator, fexl, longtest (quick) plus c and java (thorough), N = 2..4, 4/12 seeded position pairs per sample.",
    design="DESIGN.md 4/C17, 5"),
  "C15": dict(
    text="The real (*tree.Tree).Compile (first/second pass, link, countRules, checkRecursion, the emission loop's diagnostics, Strict epilogue) is executed symbolically on skeleton grammars built through the exported builder, "
